@@ -10,6 +10,7 @@ package main
 import (
 	"context"
 	"fmt"
+	"io"
 	"strings"
 	"sync"
 	"time"
@@ -196,6 +197,89 @@ func c20FailedNested(run *ev.Run) {
 	}
 }
 
+// c20BlockedIO: an interrupt that arrives while the evaluation is blocked inside a read of its input (a stalled
+// pipe, a network file system) must still end the evaluation: fq returns while the read is STILL blocked (the
+// read is released only after the verdict). Seed C20-E: a context-aware reader that, once the io call has been
+// handed to its goroutine, waits for completion only.
+type c20BlockingReader struct {
+	io.ReadSeeker
+	after   int // block on the read call number `after`
+	n       int
+	blocked chan struct{}
+	release chan struct{}
+	once    sync.Once
+}
+
+func (b *c20BlockingReader) Read(p []byte) (int, error) {
+	b.n++
+	if b.n == b.after {
+		b.once.Do(func() { close(b.blocked) })
+		<-b.release
+	}
+	return b.ReadSeeker.Read(p)
+}
+
+func c20BlockedIO(run *ev.Run) {
+	for _, sc := range []struct {
+		name  string
+		args  []string
+		after int
+	}{
+		{"cli-decode-first-read", []string{"-d", "bytes", "tobytes | tohex | length", "input"}, 1},
+		{"cli-probe-first-read", []string{".", "input"}, 1},
+		{"cli-raw-second-read", []string{"-d", "bytes", "tobytes", "input"}, 2},
+	} {
+		o := vos.New(sc.args...)
+		o.Files["input"] = gen.New(20).Bytes(3 << 20)
+		o.Interrupt = make(chan struct{})
+		br := &c20BlockingReader{after: sc.after, blocked: make(chan struct{}), release: make(chan struct{})}
+		o.OpenHook = func(name string, r io.ReadSeeker) io.ReadSeeker { br.ReadSeeker = r; return br }
+		done := make(chan struct{})
+		var res vos.Result
+		var pi *fqx.PanicInfo
+		go func() {
+			pi = guardStack(func() { res = o.RunMain(context.Background(), fqx.Registry()) })
+			close(done)
+		}()
+		run.Eval(1)
+		reached := false
+		select {
+		case <-br.blocked:
+			reached = true
+		case <-done:
+		case <-time.After(30 * time.Second):
+		}
+		if !reached {
+			// the scenario needs the read to be reached (it is, on the unchanged tree); otherwise nothing is judged
+			close(br.release)
+			<-done
+			run.Count("interp:blocked-io:read-not-reached:"+sc.name, 1)
+			continue
+		}
+		run.Count("interp:blocked-io-scenarios", 1)
+		select {
+		case o.Interrupt <- struct{}{}:
+		case <-time.After(20 * time.Second):
+		}
+		endedWhileBlocked := false
+		select {
+		case <-done:
+			endedWhileBlocked = true
+		case <-time.After(20 * time.Second):
+		}
+		close(br.release)
+		<-done
+		switch {
+		case pi != nil:
+			run.Violation("interp:panic", "blocked-io session ("+sc.name+") panicked\n"+trunc(fmt.Sprint(pi.Value)+"\n"+pi.Stack, 1500), nil)
+		case !endedWhileBlocked:
+			run.Violation("interp:interrupt-does-not-end-evaluation-blocked-in-io:"+sc.name, fmt.Sprintf("fq %v: the interrupt was delivered while read #%d of the input was blocked; fq was still running 20 s later and only returned (exit %d) after the read was released", sc.args, sc.after, res.Exit), nil)
+		default:
+			run.Distinct("interp:blocked-io:" + sc.name)
+		}
+	}
+}
+
 // c20OutputSuppressed: output written after cancellation is suppressed, also for a nested evaluation (depth >= 2)
 // whose single native call performs very many writes (hexdump of a 4 MiB binary, ~18 MB of text). The
 // interrupt is sent when the marker line has been written; afterwards at most a small fraction of the dump may
@@ -277,6 +361,7 @@ func c20OutputSuppressed(run *ev.Run) {
 func c20Interp(run *ev.Run) {
 	c20Abandoned(run)
 	c20FailedNested(run)
+	c20BlockedIO(run)
 	c20OutputSuppressed(run)
 	n := run.Pick(24, 400)
 	for id := 0; id < n; id++ {
